@@ -20,6 +20,59 @@ import os
 import sys
 
 
+def measure_limits(fast_json):
+    """deepest nesting for which dumps AND loads of this configuration work, per container kind
+    (beyond it both real decoders / encoders run into the interpreter's recursion limit), and what the
+    decoder does with a duplicate key"""
+
+    def value(kind, d):
+        v = 1
+        for i in range(d):
+            v = [v] if kind == "arr" or (kind == "alt" and i % 2) else {"k": v}
+        return v
+
+    def text(kind, d):
+        s = "1"
+        for i in range(d):
+            s = "[" + s + "]" if kind == "arr" or (kind == "alt" and i % 2) else '{"k":' + s + "}"
+        return s
+
+    import json as stdjson
+
+    def ok(kind, d, codec):
+        try:
+            codec.loads(codec.dumps(value(kind, d)))
+            codec.loads(text(kind, d))
+            return True
+        except BaseException as ex:  # noqa: BLE001
+            if isinstance(ex, (KeyboardInterrupt, SystemExit)):
+                raise
+            return False
+
+    def deepest(kind, codec):
+        lo, hi = 0, 6000
+        if ok(kind, hi, codec):
+            return hi
+        while hi - lo > 1:
+            m = (lo + hi) // 2
+            if ok(kind, m, codec):
+                lo = m
+            else:
+                hi = m
+        return lo
+
+    # `interpreter`: what the stdlib json module (not the library under test) manages in this process:
+    # the deepest nesting any Python JSON codec can be asked to handle here.  `library`: fast_json itself.
+    out = {"interpreter": {k: deepest(k, stdjson) for k in ("arr", "obj", "alt")},
+           "library": {k: deepest(k, fast_json) for k in ("arr", "obj", "alt")}}
+    try:
+        dup = fast_json.loads('{"a":1,"b":2,"a":3}')
+        out["duplicate_key"] = "last wins" if dup == {"a": 3, "b": 2} else repr(dup)
+    except Exception as ex:  # noqa: BLE001
+        out["duplicate_key"] = "raises " + type(ex).__name__
+    return out
+
+
 def main():
     if os.environ.get("VERIF_BLOCK_ORJSON") == "1":
         sys.modules["orjson"] = None  # `import orjson` now raises ImportError
@@ -46,6 +99,8 @@ def main():
             except ImportError:
                 imp = False
             ans = {"has_orjson": bool(fast_json.HAS_ORJSON), "orjson_importable": imp}
+        elif op == "limits":
+            ans = measure_limits(fast_json)
         elif op == "dumps":
             res, tokens = [], {}
             for t in req["values"]:
